@@ -12,6 +12,9 @@ import (
 type Decoder struct {
 	r   *bufio.Reader
 	fin *Frame
+	// eof is set when the input ended before a FIN frame was found.
+	// From then on nextFrame() keeps returning FIN so that every decode loop terminates.
+	eof bool
 }
 
 func NewDecoder(r io.Reader) *Decoder {
@@ -28,11 +31,8 @@ func (c *Decoder) nextFrame() *Frame {
 	buf := framePool.Get().(*[]byte) // nolint:errcheck
 	defer framePool.Put(buf)
 
-	if _, err := io.LimitReader(c.r, 1).Read(*buf); err != nil {
-		return &Frame{
-			frameType: UNKNOWN,
-			size:      0,
-		}
+	if _, err := io.ReadFull(c.r, (*buf)[:1]); err != nil {
+		return c.unexpectedEOF()
 	}
 	frameType := FrameType((*buf)[0])
 	switch frameType {
@@ -49,11 +49,8 @@ func (c *Decoder) nextFrame() *Frame {
 		return c.fin
 	}
 
-	if _, err := io.LimitReader(c.r, 2).Read(*buf); err != nil {
-		return &Frame{
-			frameType: UNKNOWN,
-			size:      0,
-		}
+	if _, err := io.ReadFull(c.r, (*buf)[:2]); err != nil {
+		return c.unexpectedEOF()
 	}
 	upper := int((*buf)[0])
 	size := (upper << 8) | int((*buf)[1])
@@ -62,6 +59,16 @@ func (c *Decoder) nextFrame() *Frame {
 		frameType: frameType,
 		size:      size,
 	}
+}
+
+// unexpectedEOF marks the stream as truncated and terminates it with a sticky FIN frame.
+func (c *Decoder) unexpectedEOF() *Frame {
+	c.eof = true
+	c.fin = &Frame{
+		frameType: FIN,
+		size:      0,
+	}
+	return c.fin
 }
 
 func (c *Decoder) peekFrameIs(t FrameType) bool {
@@ -106,6 +113,9 @@ func (c *Decoder) Decode() ([]ast.Statement, error) {
 	for {
 		frame := c.nextFrame()
 		if frame.Type() == FIN {
+			if c.eof {
+				return nil, errors.WithStack(decodeError(io.ErrUnexpectedEOF))
+			}
 			break
 		}
 		stmt, err := c.decode(frame)
